@@ -14,17 +14,28 @@ TO = 600
 F32, F64 = z3.Float32(), z3.Float64()
 
 
+_REACHED = {}
+
+
 def _float_session(fname='jaccarddist'):
+    """The float stage quantifies over the kernel's (N, M, u) at the cut.  If the Python layer can return before the kernel
+    is reached, the float laws are stated for the paths that do reach it (assumption `reached`); the other paths are covered
+    by the integer-stage obligations, which compare the returned value itself with the spec."""
     ks, out, _, _ = C02.run_dist('u8', 'u8', 1, 1, fname)
     cv = C02.cutvars(ks)
+    if len(cv.get('N', [])) != 1:
+        raise CannotEncode('the float stage expects exactly one kernel call site')
     N, M, u = cv['N'][0][0].z3(), cv['M'][0][0].z3(), cv['u'][0][0].z3()
-    if not isinstance(out.ret, CVal) or out.ret.ctype.kind != 'float' or out.ret.z3().sort() != F32:
-        raise CannotEncode('jaccarddist does not return a float32 term')
+    g = cv['N'][0][2]
+    if not isinstance(out.ret, CVal) or out.ret.ctype.kind != 'float':
+        raise CannotEncode('jaccarddist does not return a float term')
+    _REACHED[id(N)] = g
     return ks, out, N, M, u, out.ret.z3()
 
 
 def _pre(N, M, u, bits):
-    return [N >= 0, M >= 0, u >= N, u >= M, u <= N + M, N + M < (1 << bits)]
+    g = _REACHED.get(id(N), True)
+    return [N >= 0, M >= 0, u >= N, u >= M, u <= N + M, N + M < (1 << bits)] + ([] if g is True else [g])
 
 
 def _ladder(fn, name, **kw):
@@ -49,7 +60,7 @@ def ob_range_zero_one(bits=24, to=120):
     """0 <= d <= 1;  d == 0 <=> |A xor B| = 0;  d == 1 <=> |A xor B| = |A or B| > 0  (float stage, all N,M,u)."""
     ks, out, N, M, u, R = _float_session()
     num = 2 * u - N - M
-    zero, one = z3.FPVal(0.0, F32), z3.FPVal(1.0, F32)
+    zero, one = z3.FPVal(0.0, R.sort()), z3.FPVal(1.0, R.sort())
     viol = lor(out.raised,
                z3.Not(z3.And(z3.fpLEQ(zero, R), z3.fpLEQ(R, one))), z3.fpIsNaN(R),
                z3.fpEQ(R, zero) != (num == 0),
@@ -87,21 +98,28 @@ def ob_decrease(bits=8, to=200):
 
 def ob_sets(dt1, dt2, n, m, second=None):
     """Integer stage on the code's own (N,M,u): |A xor B| = 0 <=> equal sets; |A xor B| = |A or B| <=> disjoint;
-    and the (a,b) / (b,a) runs reach the same u with N,M swapped (symmetry of the merge loop)."""
+    and the (a,b) / (b,a) runs reach the same u with N,M swapped (symmetry of the merge loop).  Stated for every place at which
+    the kernel is entered, under its guard; on paths that return without entering it the returned value must be the spec distance."""
     ks, out, (A, ac, la, pa), (B, bc, lb, pb) = C02.run_dist(dt1, dt2, n, m)
-    cv1 = C02.cutvars(ks)
+    inst1 = C02.cut_instances(ks)
     ks.ip.cut_defs.clear()
     fn = ks.lookup('gambit.metric', 'jaccarddist')
     out2 = ks.call(fn, B, A)
-    cv2 = C02.cutvars(ks)
-    N1, M1, u1 = [cv1[k][0][1].z3() for k in 'NMu']
-    N2, M2, u2 = [cv2[k][0][1].z3() for k in 'NMu']
+    inst2 = C02.cut_instances(ks)
     c = J.match_count(ac, la, bc, lb)
-    num = 2 * u1 - N1 - M1
     eq = J.sets_equal(ac, la, bc, lb)
-    viol = lor(u1 != u2, N1 != M2, M1 != N2,
-               (num == 0) != eq,
-               z3.And(u1 > 0, num == u1) != z3.And(c == 0, la + lb > 0))
+    LA, LB = z3.SignExt(32, la), z3.SignExt(32, lb)
+    viols = []
+    for N1, M1, u1, g1 in inst1:
+        num = 2 * u1 - N1 - M1
+        viols.append(land(g1, lor((num == 0) != eq, z3.And(u1 > 0, num == u1) != z3.And(c == 0, la + lb > 0))))
+        for N2, M2, u2, g2 in inst2:
+            viols.append(land(g1, g2, lor(u1 != u2, N1 != M2, M1 != N2)))
+    for o, inst in ((out, inst1), (out2, inst2)):
+        g = lor(*[gi for _, _, _, gi in inst])
+        if g is not True:
+            viols.append(land(lnot(g), C02.spec_value_wrong(o, LA, LB, c)))
+    viol = lor(*viols)
     return decide(f'sets {dt1}x{dt2} n<={n} m<={m}', pa + pb, viol, ks, C02.arrays_extract(ac, la, bc, lb, dt1, dt2), TO, second=second,
                   unwind_is_violation=True,
                   reach_goals=[('equal-nonempty', z3.And(eq, la >= min(n, m), la > 0) if n and m else True), ('disjoint', z3.And(c == 0, la == n, lb == m))],
@@ -119,11 +137,21 @@ def ob_widen(dt_narrow, dt_wide, dt_other, n, m, second=None):
     Aw = SymSeq(wide_cells, wct, 'ndarray', 0, SInt(la, ub=n), name='a_wide', dtype=np.dtype(dt_wide).str)
     fn = ks.lookup('gambit.metric', 'jaccarddist')
     o1 = ks.call(fn, A, B)
-    cv1 = C02.cutvars(ks)
+    inst1 = C02.cut_instances(ks)
     ks.ip.cut_defs.clear()
     o2 = ks.call(fn, Aw, B)
-    cv2 = C02.cutvars(ks)
-    viol = lor(o1.raised, o2.raised, *[cv1[k][0][1].z3() != cv2[k][0][1].z3() for k in 'NMu'])
+    inst2 = C02.cut_instances(ks)
+    c = J.match_count(ac, la, bc, lb)
+    LA, LB = z3.SignExt(32, la), z3.SignExt(32, lb)
+    viols = [o1.raised, o2.raised]
+    for N1, M1, u1, g1 in inst1:
+        for N2, M2, u2, g2 in inst2:
+            viols.append(land(g1, g2, lor(N1 != N2, M1 != M2, u1 != u2)))
+    for o, inst in ((o1, inst1), (o2, inst2)):
+        g = lor(*[gi for _, _, _, gi in inst])
+        if g is not True:
+            viols.append(land(lnot(g), C02.spec_value_wrong(o, LA, LB, c)))
+    viol = lor(*viols)
     return decide(f'widen {dt_narrow}->{dt_wide} vs {dt_other} n<={n} m<={m}', pa + pb, viol, ks,
                   C02.arrays_extract(ac, la, bc, lb, dt_narrow, dt_other), TO, second=second, unwind_is_violation=True,
                   reach_goals=[('full', z3.And(la == n, lb == m))], bounds={'n': n, 'm': m})
